@@ -1444,6 +1444,87 @@ theorem setMassFracs_others_proportional (hl : Lawful o ph WF) (a : α) (mf : ND
 
 end Many
 
+/-! ### the derived (left-over) shape closes the block -/
+
+private theorem sumBy_append {β : Type} (f : β → Rat) (l1 l2 : List β) :
+    sumBy f (l1 ++ l2) = sumBy f l1 + sumBy f l2 := by
+  induction l1 with
+  | nil => simp [sumBy]
+  | cons a l ih => simp only [List.cons_append, sumBy, ih]; ring
+
+/-- **the derived shape's volume is exactly what the siblings leave of `maxArea × height`, and it is not
+negative** (whenever `_deriveVolumeAndArea` does not raise) -/
+theorem derived_closes_volume (A h v ar : Rat) (vs as : List Rat)
+    (hd : deriveVolumeAndArea A h vs as = some (v, ar)) : v + sumBy id vs = A * h ∧ 0 ≤ v := by
+  unfold deriveVolumeAndArea at hd
+  simp only [] at hd
+  split at hd
+  · cases hd
+  · rename_i hneg
+    have hv : v = A * h - sumBy id vs := by
+      split at hd
+      · split at hd
+        · cases hd
+        · cases hd; rfl
+      · cases hd; rfl
+    constructor
+    · rw [hv]; ring
+    · rw [hv]; exact not_lt.mp hneg
+
+/-- **component areas of a block with a derived shape sum to the block's (pitch-hex / bounding) area**:
+two-dimensional siblings (`volume = area × height`), non-zero height -/
+theorem derived_closes_area (A h v ar : Rat) (vs as : List Rat) (hh : h ≠ 0)
+    (h2d : vs = as.map (fun a => a * h))
+    (hd : deriveVolumeAndArea A h vs as = some (v, ar)) : ar + sumBy id as = A := by
+  have hv := (derived_closes_volume A h v ar vs as hd).1
+  unfold deriveVolumeAndArea at hd
+  simp only [hh, if_false] at hd
+  split at hd
+  · cases hd
+  · cases hd
+    have e : sumBy id vs = sumBy id as * h := by
+      rw [h2d, sumBy_map]; exact sumBy_mul_const id h as
+    rw [e]; field_simp; ring
+
+/-- the zero-height case: the area is derived from the sibling areas directly -/
+theorem derived_closes_area_zero_height (A v ar : Rat) (vs as : List Rat)
+    (hd : deriveVolumeAndArea A 0 vs as = some (v, ar)) : ar + sumBy id as = A := by
+  unfold deriveVolumeAndArea at hd
+  simp only [if_true] at hd
+  split at hd
+  · cases hd
+  · split at hd
+    · cases hd
+    · cases hd; ring
+
+/-- `getComponentArea(cold=True)` / `(Tc=T)` of the derived shape closes the block at those conditions too -/
+theorem derivedAreaAt_closes (A : Rat) (as : List Rat) : derivedAreaAt A as + sumBy id as = A := by
+  unfold derivedAreaAt; ring
+
+/-- **block volume = `maxArea × height / symmetry factor`** for a block with exactly one derived shape
+(anywhere in the child list) whose volume is the derived one: `Block.getVolume` = Σ component volumes / sym -/
+theorem block_volume_with_derived (ph : Phys) (b : Block) (pre post : List Comp) (d : Comp)
+    (A h ar : Rat) (as : List Rat) (hk : b.kids = pre ++ d :: post) (hcoded : b.volCoded = none)
+    (hd : deriveVolumeAndArea A h ((pre ++ post).map (·.vol)) as = some (d.vol, ar)) :
+    (blockOps ph).vol b = A * h / b.sym := by
+  have hv := (derived_closes_volume A h d.vol ar _ as hd).1
+  simp only [blockOps, nodeOps, Node.vol, hcoded, hk]
+  have e : sumBy (compOps ph).vol (pre ++ d :: post)
+      = d.vol + sumBy id ((pre ++ post).map (·.vol)) := by
+    rw [sumBy_map, sumBy_append, sumBy_append]
+    simp only [sumBy, compOps, id]; ring
+  rw [e, hv]
+
+/-- when a sibling's area grows by `δ` (thermal expansion of a neighbour) the derived area shrinks by `δ` -/
+theorem derived_area_follows (A δ : Rat) (pre post : List Rat) (a : Rat) :
+    derivedAreaAt A (pre ++ (a + δ) :: post) = derivedAreaAt A (pre ++ a :: post) - δ := by
+  unfold derivedAreaAt
+  rw [sumBy_append, sumBy_append]; simp only [sumBy, id]; ring
+
+example : deriveVolumeAndArea 10 2 [3, 4] [3 / 2, 2] = some (13, 13 / 2) := by decide +kernel
+example : (13 / 2 : Rat) + sumBy id [3 / 2, 2] = 10 :=
+  derived_closes_area 10 2 13 (13 / 2) [3, 4] [3 / 2, 2] (by norm_num) (by norm_num) (by decide +kernel)
+
 /-! ### non-vacuity: concrete objects satisfying the hypotheses -/
 
 private def exPh : Phys := ⟨2, 1, fun _ => 10⟩
